@@ -7,7 +7,7 @@
    decided exactly without arithmetic (DESIGN 2.4).  Ids are logged as ranks in the lexicographic
    order of the real id strings.  One trace per NDJSON line:
      [tid, c: config, ev: <<event>>]
-     config: lo, hi, floor, thr (doubles), topk, cap (ints), tol (tolerated causes of listed findings)
+     config: lo, hi, floor, thr (doubles), topk, cap (ints)
      event : op in {"init","observe","tick","merge","split","promote","repromote"}, gate,
              edges = <<[ks, kd (ids parsed from the key), s, d (src/dst fields), idok (id field = key),
                         rel (0 coact, 1 concept), w (double), c (co-activation counter)]>>,
@@ -68,7 +68,6 @@ ClampCause(w, c, op) ==
     ELSE IF op = "tick" /\ FLT(Zero, c.lo) /\ FLE(Zero, w) /\ FLT(w, c.lo) THEN "tick-below-clamp-min"
     ELSE IF op = "tick" /\ FLT(c.hi, Zero) /\ FLE(w, Zero) /\ FLT(c.hi, w) THEN "tick-above-clamp-max"
     ELSE op \o "-outside-clamp"
-Tolerated(cause, c) == \E i \in 1..Len(c.tol) : c.tol[i] = cause
 
 -----------------------------------------------------------------------------
 (* observe: the documented selection evaluated on the logged doubles *)
@@ -92,7 +91,7 @@ ObserveClause(e, c) ==
        ELSE IF touched # DOMAIN want \/ (\E k \in touched : bump(k) # want[k]) \/ e.pairs # Len(keys) \/ e.kused # Len(used)
             THEN "ObserveOnlyTopKAboveThreshold:selection-differs"
        ELSE IF ~e.permok THEN "ObserveOrderInsensitive:listing-order"
-       ELSE IF outside # {} /\ ~Tolerated(ClampCause(Rec(e, CHOOSE k \in outside : TRUE).w, c, "observe"), c)
+       ELSE IF outside # {}
             THEN "WithinClamp:" \o ClampCause(Rec(e, CHOOSE k \in outside : TRUE).w, c, "observe")
        ELSE IF ~SameNodes(e, pv) \/ ~SameMeta(e, pv) THEN "MaintenanceOnlyAnnotatesOrAttaches:observe-touched-meta"
        ELSE ""
@@ -117,7 +116,7 @@ TickClause(e, c) ==
        ELSE IF e.half /\ (\E k \in gone : HalfKnown(Rec(pv, k).w) /\ ~MagLT(Half(Rec(pv, k).w), c.floor))
             THEN "TickDropsExactlyBelowFloor:dropped-above-floor"
        ELSE IF e.half /\ (\E k \in surv : HalfKnown(Rec(pv, k).w) /\ ~MagEQ(Rec(e, k).w, Half(Rec(pv, k).w))) THEN "TickDecayRule:factor-half"
-       ELSE IF leave # {} /\ ~Tolerated(ClampCause(Rec(e, CHOOSE k \in leave : TRUE).w, c, "tick"), c)
+       ELSE IF leave # {}
             THEN "WithinClamp:" \o ClampCause(Rec(e, CHOOSE k \in leave : TRUE).w, c, "tick")
        ELSE IF ~SameNodes(e, pv) \/ ~SameMeta(e, pv) THEN "MaintenanceOnlyAnnotatesOrAttaches:tick-touched-meta"
        ELSE ""
